@@ -113,8 +113,9 @@ func otherG2(seed byte) *math.G2 {
 }
 
 type codec interface {
-	shareOffY(b []byte) []byte // a share whose last component only is moved off the polynomial
-	shareOff(b []byte) []byte  // a share moved off the polynomial
+	shareOffY(b []byte) []byte            // a share whose last component only is moved off the polynomial
+	shareOff(b []byte) []byte             // a share moved off the polynomial
+	shareAdd(b []byte, d *math.Zr) []byte // every component of the share plus d
 	truncShare(b []byte) []byte
 	otherKey(seed byte) []byte // a well-formed public key unrelated to the real one
 	shiftKey(b []byte) []byte  // the real key shifted by a generator multiple
@@ -128,8 +129,11 @@ func (blsCodec) shareOff(b []byte) []byte {
 	return curve.NewZrFromBytes(b).Plus(curve.NewZrFromInt(1)).Bytes()
 }
 func (c blsCodec) shareOffY(b []byte) []byte { return c.shareOff(b) }
-func (blsCodec) truncShare(b []byte) []byte  { return b[:len(b)/2] }
-func (blsCodec) otherKey(seed byte) []byte   { return otherG2(seed).Bytes() }
+func (blsCodec) shareAdd(b []byte, d *math.Zr) []byte {
+	return curve.ModAdd(curve.NewZrFromBytes(b), d, curve.GroupOrder).Bytes()
+}
+func (blsCodec) truncShare(b []byte) []byte { return b[:len(b)/2] }
+func (blsCodec) otherKey(seed byte) []byte  { return otherG2(seed).Bytes() }
 func (blsCodec) shiftKey(b []byte) []byte {
 	g, err := curve.NewG2FromBytes(b)
 	if err != nil {
@@ -167,6 +171,17 @@ func (psCodec) shareOff(b []byte) []byte {
 		return b
 	}
 	x.X = curve.NewZrFromBytes(x.X).Plus(curve.NewZrFromInt(1)).Bytes()
+	return psPack(x)
+}
+func (psCodec) shareAdd(b []byte, d *math.Zr) []byte {
+	x, ok := psParse(b)
+	if !ok {
+		return b
+	}
+	x.X = curve.ModAdd(curve.NewZrFromBytes(x.X), d, curve.GroupOrder).Bytes()
+	for i := range x.Ys {
+		x.Ys[i] = curve.ModAdd(curve.NewZrFromBytes(x.Ys[i]), d, curve.GroupOrder).Bytes()
+	}
 	return psPack(x)
 }
 func (psCodec) shareOffY(b []byte) []byte {
@@ -286,6 +301,7 @@ var strategies = []string{
 	"S8-commit-reveal-first", "S8-reveal-before-commit",
 	"S10-weak-commitment-empty-adaptive-key", "S10-weak-commitment-prefix-adaptive-key",
 	"S9-consistent-key-off-polynomial", "S9-consistent-key-too-few-components", "S9-consistent-key-too-many-components",
+	"S11-dealer-polynomial-of-degree-t",
 }
 
 // filterFor builds the deviator's output filter.
@@ -369,6 +385,19 @@ func filterFor(k cell, cd codec, topicOf func() []byte) func(p *world.Packet) []
 		}
 		out := []*world.Packet{p}
 		switch s {
+		case "S11-dealer-polynomial-of-degree-t":
+			// the deviator deals on a polynomial whose degree is one too high: f'(x) = f(x) +
+			// c x^(t-1) (x - dev); its own share and its public key (x = 0) are unchanged, every
+			// t+1 parties are consistent with each other, no t-subset determines the secret
+			if tag == tagShare {
+				x := curve.NewZrFromInt(int64(p.To))
+				d := curve.HashToZr([]byte("c05-high-degree"))
+				for i := 0; i < k.TT-1; i++ {
+					d = curve.ModMul(d, x, curve.GroupOrder)
+				}
+				d = curve.ModMul(d, curve.ModSub(x, curve.NewZrFromInt(int64(k.Dev)), curve.GroupOrder), curve.GroupOrder)
+				out = []*world.Packet{with(p, mpc(tagShare, cd.shareAdd(body, d)))}
+			}
 		case "S1-share-off-polynomial":
 			if tag == tagShare && victim {
 				out = []*world.Packet{with(p, mpc(tag, cd.shareOff(body)))}
@@ -910,7 +939,7 @@ func gen(c *harness.C) []harness.Case {
 		}
 	}
 	type nt struct{ n, t int }
-	cfgs := map[string][]nt{"bls": {{3, 2}, {3, 3}, {4, 3}}, "ps": {{3, 2}, {3, 3}}}
+	cfgs := map[string][]nt{"bls": {{3, 2}, {3, 3}, {4, 3}, {4, 2}, {5, 3}}, "ps": {{3, 2}, {3, 3}}}
 	if c.Thorough() {
 		cfgs = map[string][]nt{"bls": {{3, 2}, {3, 3}, {4, 2}, {4, 3}, {4, 4}}, "ps": {{3, 2}, {3, 3}, {4, 3}}}
 	}
@@ -922,17 +951,27 @@ func gen(c *harness.C) []harness.Case {
 					continue
 				}
 				base := cell{Backend: be, NN: x.n, TT: x.t, Dev: dev}
+				onlyS11 := !c.Thorough() && (x.n == 4 && x.t == 2 || x.n == 5)
 				for _, s := range directStrategies {
+					if onlyS11 {
+						break
+					}
 					k := base
 					k.Strategy, k.Victims = s, honestOf(base)
 					cases = append(cases, harness.Case{ID: k.id(), Run: func(c *harness.C) { runCell(c, k, 0) }})
 				}
 				for _, s := range strategies {
+					if onlyS11 && !strings.HasPrefix(s, "S11") && s != "honest" {
+						continue
+					}
 					vs := nonEmptySubsets(honestOf(base))
 					if strings.HasPrefix(s, "S10") && (be != "bls" || x.t != x.n) {
 						continue
 					}
-					if s == "honest" || strings.HasPrefix(s, "S10") || strings.HasSuffix(s, "-all") || strings.HasPrefix(s, "S6") || strings.HasPrefix(s, "S8") || strings.HasPrefix(s, "S9") || strings.Contains(s, "-key") || s == "S5-reveal-not-a-point" {
+					if strings.HasPrefix(s, "S11") && x.t > x.n-2 {
+						continue // with t >= n-1 the polynomial of degree t is not determined by the honest parties
+					}
+					if s == "honest" || strings.HasPrefix(s, "S11") || strings.HasPrefix(s, "S10") || strings.HasSuffix(s, "-all") || strings.HasPrefix(s, "S6") || strings.HasPrefix(s, "S8") || strings.HasPrefix(s, "S9") || strings.Contains(s, "-key") || s == "S5-reveal-not-a-point" {
 						vs = vs[len(vs)-1:] // victim set irrelevant: everybody
 					}
 					for _, v := range vs {
